@@ -245,8 +245,8 @@ pub fn run(tier: Tier) -> i32 {
     let report = Report::new("C17", tier, "exploration");
     let scripts = scripts(tier);
     let mut ns: Vec<usize> = (1..=16).collect();
-    ns.extend(tier.pick(vec![31, 32, 33, 64, 65, 100, 1000], vec![31, 32, 33, 49, 63, 64, 65, 100, 1000, 2000]));
-    let ks: Vec<usize> = tier.pick(vec![1, 2, 3, 64], vec![1, 2, 3, 49, 64, 200]);
+    ns.extend(tier.pick(vec![31, 32, 33, 64, 65, 100, 1000], (17..=24).chain([31, 32, 33, 48, 49, 50, 63, 64, 65, 66, 100, 127, 128, 129, 1000, 2000]).collect()));
+    let ks: Vec<usize> = tier.pick(vec![1, 2, 3, 64], vec![1, 2, 3, 4, 5, 7, 8, 16, 32, 49, 63, 64, 65, 128, 200]);
     let evals = AtomicUsize::new(0);
     let samples = Mutex::new(Samples::new(6));
     let per_strategy: Mutex<BTreeMap<&'static str, usize>> = Mutex::new(BTreeMap::new());
